@@ -1688,6 +1688,16 @@ class PureInterp:
                 if kind == "itemgetter":
                     return (lambda o, keys=tuple(args): o[keys[0]] if len(keys) == 1 else tuple(o[k] for k in keys))
                 raise Unsupported("operator.methodcaller")
+            if name in ("attrs.evolve", "attr.evolve", "dataclasses.replace") and args and isinstance(args[0], Obj) and isinstance(args[0].__dict__["_attrs"].get("__class__"), ClassInfo):
+                # a new instance through the constructor: the init-fields keep their current values unless changed; fields with init=False are computed afresh
+                src, cls_ = args[0], args[0].__dict__["_attrs"]["__class__"]
+                kw_ = {}
+                for fname, _ann, value in cls_.fields:
+                    is_init = not (isinstance(value, ast.Call) and any(k.arg == "init" and isinstance(k.value, ast.Constant) and k.value.value is False for k in value.keywords))
+                    if is_init and fname in src.__dict__["_attrs"]:
+                        kw_[fname.lstrip("_")] = src.__dict__["_attrs"][fname]
+                kw_.update(kwargs)
+                return self.apply(cls_, [], kw_, depth)
             if name in ("attrs.asdict", "attr.asdict", "dataclasses.asdict", "attrs.astuple", "attr.astuple", "dataclasses.astuple") and args and isinstance(args[0], Obj):
                 o0 = args[0]
                 cls0 = o0.__dict__["_attrs"].get("__class__")
